@@ -65,6 +65,82 @@ def pclose(a: float, b: float, exact_one: bool) -> bool:
     return abs(a - b) <= 1e-9 + 1e-7 * abs(b)
 
 
+def histories(out: Outcome, rng, n_cases: int, thorough: bool):
+    """random fit / update / reset histories of ONE IncrementalKSTest, mirrored op by op on the model's state machine
+    (`x kn/kf/ku/kr`): updates on an unfitted detector must raise MissingFitError and leave no trace; every accepted update from
+    the w-th on must equal the batch test on the last w accepted values since the last reset"""
+    from frouros.detectors.data_drift.exceptions import MissingFitError
+    lines, expect = [], []
+    for case in range(n_cases):
+        w = rng.choice([1, 2, 3, 4, 6, 9, 40, 120] if thorough else [1, 2, 3, 4, 6, 9, 40])
+        big = case == 0
+        inc = IncrementalKSTest(window_size=w)
+        lines.append(f"x kn {w}")
+        expect.append(None)
+        ops = []
+        ref, accepted = None, []
+        n_ops = rng.randint(w + 2, 3 * w + 12)
+        for _ in range(n_ops):
+            r = rng.random()
+            if ref is None:
+                op = "fit" if r < 0.45 else ("update" if r < 0.9 else "reset")
+            else:
+                op = "update" if r < 0.88 else ("reset" if r < 0.95 else "fit")
+            rep = {"window": w, "kind": "history", "ops": ops + [op]}
+            if op == "fit":
+                n = 10001 if big and ref is None else rng.choice([2, 5, 10, 30, 64, 300, 1500] if thorough else [2, 5, 10, 30, 64, 300])
+                ref = sample(rng, n) if n < 10001 else [rng.gauss(0, 1) for _ in range(n)]
+                inc.fit(X=np.array(ref))
+                ops.append(["fit", n if n > 64 else ref])
+                lines.append("x kf " + " ".join(f2h(x) for x in ref))
+                expect.append(None)
+            elif op == "reset":
+                inc.reset()
+                ref, accepted = None, []
+                ops.append(["reset"])
+                lines.append("x kr")
+                expect.append(None)
+            else:
+                v = sample(rng, 1)[0]
+                ops.append(["update", v])
+                lines.append(f"x ku {f2h(v)}")
+                try:
+                    res, _ = inc.update(value=v)
+                except MissingFitError:
+                    expect.append(("err:MissingFit", rep))
+                    if ref is not None:
+                        out.violation("IncrementalKSTest.update raised MissingFitError on a fitted detector", rep)
+                    continue
+                except Exception as e:  # noqa: BLE001
+                    out.violation(f"IncrementalKSTest.update raised {type(e).__name__}: {e}", rep)
+                    break
+                if ref is None:
+                    out.violation("IncrementalKSTest.update on an unfitted detector did not raise MissingFitError", rep)
+                    break
+                accepted.append(v)
+                if len(accepted) < w:
+                    expect.append(("-", rep))
+                    if res is not None:
+                        out.violation(f"IncrementalKSTest returned a result after {len(accepted)} < window_size={w} accepted values", rep)
+                        break
+                    continue
+                if res is None:
+                    out.violation(f"IncrementalKSTest returned nothing after {len(accepted)} >= window_size={w} accepted values", rep)
+                    break
+                bat = KSTest()
+                bat.fit(X=np.array(ref))
+                b, _ = bat.compare(X=np.array(accepted[-w:]))
+                if abs(float(res.statistic) - float(b.statistic)) > 1e-12 or abs(float(res.p_value) - float(b.p_value)) > 1e-9 + 1e-3 * (float(b.p_value) > 0.999):
+                    out.violation(f"IncrementalKSTest (statistic, p)=({float(res.statistic)!r}, {float(res.p_value)!r}) differs from the batch test "
+                                  f"({float(b.statistic)!r}, {float(b.p_value)!r}) on the last {w} values accepted since fit/reset", rep)
+                    break
+                rep = dict(rep, asymptotic=max(len(ref), w) > 10000)
+                expect.append(((float(res.statistic), float(res.p_value)), rep))
+        out.case({"history": True, "window": w, "ops": len(ops), "rejected": sum(1 for e in expect if e and e[0] == "err:MissingFit"),
+                  "h": hash(repr(ops)) & 0xFFFFFF})
+    return lines, expect
+
+
 def run(out: Outcome) -> None:
     rng = rng_for(out.seed, "C11")
     thorough = out.tier == "thorough"
@@ -187,7 +263,31 @@ def run(out: Outcome) -> None:
                     out.violation(f"IncrementalKSTest p={float(r.p_value)!r} differs from batch p={float(b.p_value)!r} with a reference of {n} values", rep)
                     break
         out.case({"large_reference": n, "window": w})
+    hist_lines, hist_expect = histories(out, rng, 40 if thorough else 12, thorough)
     res = run_driver(lines)
+    hres = run_driver(hist_lines)
+    for got, exp in zip(hres, hist_expect):
+        if exp is None:
+            continue
+        want, rep = exp
+        toks = got.split(" ")
+        if isinstance(want, str):
+            if got != want:
+                out.mismatch(f"IncrementalKSTest history: model answers '{got}' where the implementation gave '{want}'", rep)
+        elif len(toks) != 3 or not toks[0].startswith("x"):
+            out.mismatch(f"IncrementalKSTest history: model answers '{got}' where the implementation returned a result", rep)
+        else:
+            stat, p = want
+            if abs(h2f(toks[0][1:]) - stat) > 1e-12:
+                out.mismatch(f"IncrementalKSTest history: model statistic {h2f(toks[0][1:])!r} vs implementation {stat!r}", rep)
+            elif toks[2] == "asym":
+                if rep.get("asymptotic") is not True:
+                    out.mismatch("IncrementalKSTest history: the model takes the asymptotic branch where max(n, w) <= 10000", rep)
+            elif rep.get("asymptotic") is True:
+                out.mismatch("IncrementalKSTest history: the model takes the exact branch where max(n, w) > 10000", rep)
+            elif not pclose(p, h2f(toks[2][1:]), h2f(toks[2][1:]) == 1.0):
+                out.mismatch(f"IncrementalKSTest history: model exact p-value {h2f(toks[2][1:])!r} (h={toks[1]}) vs implementation {p!r}", rep)
+        out.traces_validated += 1
     for got, (name, stat, p, rep, exact_one) in zip(res, expect):
         ms, mh, mp = got.split(" ")
         ms, mp = h2f(ms[1:]), h2f(mp[1:])
